@@ -1,6 +1,6 @@
 """C03 — the same model and seeds give the same run, every time and in every process.
 
-A zoo of 34 small models (simkit/c03_zoo.py) covers every component family of the property's quantifier.  One scenario =
+A zoo of 35 small models (simkit/c03_zoo.py) covers every component family of the property's quantifier.  One scenario =
 {model, params, user seed, other models that run earlier in the same interpreter, perturbation plan}.  `run(sc)` executes
 the model under the perturbations and compares one canonical digest = delivery log (time_ns, event_type, target name)
 recorded through the engine's own `sim.control.on_event` seam + the model's list of public statistics:
@@ -55,7 +55,7 @@ SELFTEST_RUNS = 3
 SHRINK_BUDGET_S = {"quick": 30.0, "thorough": 60.0}
 SHRINK_SKIP = ("params", "model")
 RULE = (
-    "quick: each case = a cohort of 8 different zoo models (all judged; 40 cohorts = 320 model/seed pairs, every model >= 3 "
+    "quick: each case = a cohort of 8 different zoo models out of 35 (all judged; 40 cohorts = 320 model/seed pairs, every model >= 3 "
     "seeds), two interpreters per cohort + sampled literal subprocesses; thorough: each case = one of 34 zoo models (sources->servers, all queue policies incl. RED/CoDel/Balking, lossy/jittered Network, "
     "Raft, Paxos, Multi-/Flexible-Paxos, leader-election strategies, SWIM, LSM+WAL, BTree, CachedStore x 10 eviction "
     "configurations, SoftTTL, MultiTier, sharded/replicated store, primary-backup, chain, multi-leader, CRDTStore gossip, "
@@ -101,7 +101,7 @@ ZOO_PROBES = (
     "raft_second_election red_probabilistic_drop replicated_quorum_write rpc_retry softttl_stale_hit_refresh swim_indirect_probe "
     "swim_suspected_or_dead topic_replay topic_unsubscribe ttl_server_expired_entry_miss writeback_policy_flush"
 ).split()
-EXPECTED_PROBES += [f"probe.zoo.{n}" for n in ZOO_PROBES]
+EXPECTED_PROBES += [f"probe.zoo.{n}" for n in ZOO_PROBES] + ["probe.zoo.random_partition_dropped_messages", "probe.spec_bundle_reused"]
 
 HASHSEEDS = (0, 1, 4242)
 WALL_MODES = ("offset", "fast", "frozen")
@@ -134,6 +134,9 @@ def _gen_job(rng, name=None, weighted=True):
         job["seed_mode"] = "same"
     elif u < 0.4:
         job["seed_mode"] = "same"
+    # the user defines the declarative spec objects of the scenario (fault specs, node lists, strategies, ...) once per
+    # interpreter and builds the model again from the same objects
+    job["reuse_specs"] = rng.random() < 0.6
     return job
 
 
@@ -356,7 +359,8 @@ def first_difference(ref: dict, other: dict) -> tuple[str, str]:
 
 
 def _job(d):
-    return {"model": d["model"], "params": d["params"], "seed": d["seed"], "seed_mode": d.get("seed_mode", "derived")}
+    return {"model": d["model"], "params": d["params"], "seed": d["seed"], "seed_mode": d.get("seed_mode", "derived"),
+            "reuse_specs": bool(d.get("reuse_specs", False))}
 
 
 def _subject(sc):
@@ -582,6 +586,7 @@ def _run_cohort(sc):
             bad.append((j, kind, hs))
     counters.setdefault("probe.event_counter_dirty", 0)
     states, deliveries, sim_s = [], 0, 0.0
+    counters["probe.spec_bundle_reused"] = sum(1 for m in members if m.get("reuse_specs"))
     counters["probe.boundary_seed_everywhere"] = sum(1 for m in members if m["seed_mode"] == "same" and m["seed"] in BOUNDARY_SEEDS)
     counters["probe.seed_zero_everywhere"] = sum(1 for m in members if m["seed_mode"] == "same" and m["seed"] == 0)
     for j, (m, ref) in enumerate(zip(members, refs)):
